@@ -11,6 +11,7 @@ that fit them without using any parser:
 import random, sys
 
 NAMES = [b'a', b'b', b'id', b'x', b'name']
+PLACEHOLDER_NAMES = [b'template', b'conflicts', b'constraint', b'inserted', b'name', b'arrow', b'existing_type', b'new_type']
 # names with multi-byte characters; the low byte of some code points is a syntax byte: 用 U+7528 '(' 天 U+5929 ')' 为 U+4E3A ':' 是 U+662F '/' 个 U+4E2A '*' Ž U+017D '}' ŻU+017B '{'
 UNAMES = ['用户'.encode(), '天'.encode(), 'Ž'.encode(), 'naïve'.encode(), '个'.encode(), '是'.encode(), '为'.encode(), 'Ż'.encode(), 'ü'.encode()]
 CONS = [b'lower', b'even', b'noa', b'u8', 'größe'.encode()]
@@ -47,6 +48,9 @@ class G:
         names = [n for n in NAMES if n not in used] or [b'p%d' % len(used)]
         if r.random() < 0.08:
             names = [n for n in UNAMES if n not in used] or names
+        elif r.random() < 0.06:
+            # names that are also the placeholders of the error message formats
+            names = [n for n in PLACEHOLDER_NAMES if n not in used] or names
         n = r.choice(names); used.append(n)
         kind = 'w' if allow_wild and r.random() < 0.3 else 'd'
         c = None
@@ -341,6 +345,28 @@ class G:
             groups = groups[:1]
         return head + groups
 
+    def multi_sibling(self, vocab):
+        """one template whose adjacent optional groups put three or four NEW siblings of one kind under one node in a
+        single insert (one optimize afterwards), in descending or shuffled order"""
+        r = self.r
+        k = r.choice([3, 3, 4])
+        heads = r.sample([b'a', b'b', b'c', b'd', b'm', b'x', b'z', '\u00e9'.encode(), b'0'], k)
+        heads.sort(reverse=True)
+        if r.random() < 0.4:
+            r.shuffle(heads)
+        base = [('s', b'/'), ('s', r.choice(vocab))] if r.random() < 0.5 else []
+        kind = r.choice(['s', 's', 'd', 'w'])
+        groups = []
+        for h in heads:
+            tag = h if h.isascii() else b'q'
+            if kind == 's':
+                groups.append(('g', [('s', b'/'), ('s', h)]))
+            elif kind == 'd':
+                groups.append(('g', [('s', b'/'), ('d', b'p' + tag, None)]))
+            else:
+                groups.append(('g', [('s', b'/'), ('w', b'w' + tag, None), ('s', b'/end')]))
+        return base + groups
+
     def length_rivals(self):
         """two templates of equal depth reached through different values of one inline parameter, the first with
         multi-byte literal text: its length in BYTES is above the rival's, its length in characters below it"""
@@ -430,6 +456,8 @@ class G:
             elif k < 0.86:
                 t1, t2 = self.length_rivals()
                 pool.append(t1); pool.append(t2)
+            elif k < 0.90:
+                pool.append(self.multi_sibling(vocab))
             else:
                 pool.append(self.template_items(vocab))
         return pool
